@@ -128,6 +128,14 @@ def _cases(draw, tier):
     for h in heads_q + gl_bases:      # remaining planned globals
         items.append({'t': 'label', 'name': h})
         items.append({'t': 'data', 'd': '.byte', 'vals': [['num', 0x55, 'hex$']]})
+    if draw(st.integers(0, 2)) == 0:
+        # two short regions whose every line begins with a label (they can stand on one source line): the second one
+        # defines the same local name again, or uses it without defining it (not visible there: rejected)
+        items += [{'t': 'label', 'name': 'tg1'}, {'t': 'label', 'name': '.tq'}, {'t': 'data', 'd': '.byte', 'vals': [['num', 7, 'dec']]},
+                  {'t': 'label', 'name': 'tg2'}]
+        if draw(st.booleans()):
+            items.append({'t': 'label', 'name': '.tq'})
+        items.append(probe('.tq'))
     if draw(st.booleans()):
         items.insert(0, {'t': 'const', 'name': 'kval', 'e': ['num', draw(st.integers(0, 500)), 'dec']})
         items.append(probe('kval'))
@@ -155,7 +163,7 @@ def _cases(draw, tier):
         items = inject(draw, items, fault)
         if items is None:
             return {'skip': 'fault not applicable to this program'}
-    return {'isa': cfg, 'items': items, 'fault': fault, 'lo': 0, 'fill': 0, 'join_labels': draw(st.integers(0, 3)) == 0}
+    return {'isa': cfg, 'items': items, 'fault': fault, 'lo': 0, 'fill': 0, 'join_labels': draw(st.sampled_from([0, 0, 0, 0, 1, 2]))}
 
 
 def _files(items, name='main.asm', out=None):
@@ -333,6 +341,17 @@ def execute(case, ctx):
                     out[-1] = out[-1] + ' ' + line
                 else:
                     out.append(line)
+            if case['join_labels'] == 2:
+                # further: a line that begins with a label is written behind the statement before it (two non-local
+                # labels, with what follows each, on one source line): the same program
+                out2 = []
+                for line in out:
+                    if out2 and re.match(r'[._\w]+: ', line) and re.search(r'\.(?:2?byte) [^;"\']*$', out2[-1]) \
+                            and len(out2[-1]) < 160 and not out2[-1].startswith(('#', ';')):
+                        out2[-1] = out2[-1] + '   ' + line
+                    else:
+                        out2.append(line)
+                out = out2
             files[k] = '\n'.join(out)
     argv = ['compile', '-c', fname, '-o', 'out.bin', '-s', str(lo), '-e', str(hi), 'main.asm']
     res = runner.run_forked(argv, files)
@@ -352,7 +371,8 @@ def execute(case, ctx):
             findings.append(Finding('C06/reference-resolved-to-wrong-definition', detail))
     nt = bool(fault) or multi_scope_reference(case['items'])
     classes = ['model:' + verdict, 'outcome:' + res.klass, 'fault:' + str(fault), 'files:%d' % len(detail['sources'])] + \
-              (['labels-joined-with-the-following-line'] if case.get('join_labels') else [])
+              (['labels-joined-with-the-following-line'] if case.get('join_labels') else []) + \
+              (['several-labelled-statements-on-one-line'] if case.get('join_labels') == 2 else [])
     if verdict != 'accepted':
         classes.append('reject-reason:' + lay.split(' ')[0] + ' ' + ' '.join(lay.split(' ')[1:3]))
     sample = {'sources': detail['sources'], 'fault': fault, 'model': detail['model']}
